@@ -20,7 +20,7 @@ LEVEL = "exploration"
 REQUIRED_CLASSES = ["ok"]
 RULE = ("all 48 orientation codes x RAS sizes x chunk sizes x pixel kinds "
         "{grey uint8, grey uint16, RGB uint8, two directories = 2 channels, "
-        "RGB + grey directory = 4 channels} x file names {zero-padded, 12 "
+        "RGB + grey directory = 4 channels, an 8-bit and a 16-bit directory in either order} x file names {zero-padded, 12 "
         "slices with un-padded numbers}; 16-bit slices into an 8-bit dataset "
         "x storage {flat no-gzip, deep gzip, sharded(1,1,0) for cubic "
         "chunks}, plus label stacks stored as compressed_segmentation for "
@@ -55,7 +55,17 @@ def all_codes():
     return sorted(out)
 
 
+def dir_pixel(kind, ch):
+    """pixel type of the directory that delivers channel ch"""
+    if kind == "mixed-8-16":
+        return "uint8" if ch == 0 else "uint16"
+    if kind == "mixed-16-8":
+        return "uint16" if ch == 0 else "uint8"
+    return kind
+
+
 def stack_value(c, r, k, ch, kind):
+    kind = dir_pixel(kind, ch)
     """position code; distinct for all positions of the sizes used"""
     if kind.endswith("-labels"):
         # few labels, the same label sets in every channel
@@ -70,7 +80,8 @@ def expected_volume(code, size, nch, kind):
     """(C,Z,Y,X) reference from the orientation code"""
     a = [AXIS[ch] for ch in code]            # RAS axis of col,row,slice
     n = [size[a[0]], size[a[1]], size[a[2]]]  # ncols, nrows, nslices
-    dt = np.uint16 if kind == "uint16" else np.uint8
+    dt = np.uint16 if (kind == "uint16" or kind.startswith("mixed")) \
+        else np.uint8
     out = np.zeros((nch, size[2], size[1], size[0]), dtype=dt)
     for k in range(n[2]):
         for r in range(n[1]):
@@ -90,7 +101,8 @@ def write_slices(d, code, size, kind, names="padded"):
     import PIL.Image
     a = [AXIS[ch] for ch in code]
     n = [size[a[0]], size[a[1]], size[a[2]]]
-    ndirs = 2 if (kind.startswith("two-dirs") or kind == "rgb-grey") else 1
+    ndirs = 2 if (kind.startswith("two-dirs") or kind == "rgb-grey"
+                  or kind.startswith("mixed")) else 1
     # slices are taken in lexicographic order of their file names (the
     # script's documented rule): with un-padded numbers that is not the
     # numeric order
@@ -113,7 +125,8 @@ def write_slices(d, code, size, kind, names="padded"):
                             img[r, c, ch] = stack_value(c, r, k, ch, kind)
                 im = PIL.Image.fromarray(img, "RGB")
             else:
-                dt = np.uint16 if kind == "uint16" else np.uint8
+                dt = np.uint16 if dir_pixel(kind, di) == "uint16" \
+                    else np.uint8
                 img = np.zeros((n[1], n[0]), dtype=dt)
                 for r in range(n[1]):
                     for c in range(n[0]):
@@ -143,7 +156,8 @@ def _eval_in(col, case, d):
     code, size, cs, kind = (case["code"], case["size"], case["chunk"],
                             case["pixels"])
     nch = {"uint8": 1, "uint16": 1, "rgb": 3, "two-dirs": 2,
-           "rgb-labels": 3, "two-dirs-labels": 2, "rgb-grey": 4}[kind]
+           "rgb-labels": 3, "two-dirs-labels": 2, "rgb-grey": 4,
+           "mixed-8-16": 2, "mixed-16-8": 2}[kind]
     dirs, n = write_slices(d, code, size, kind, case.get("names", "padded"))
     dest = os.path.join(d, "ds")
     os.makedirs(dest)
@@ -164,7 +178,9 @@ def _eval_in(col, case, d):
                              "minishard_index_encoding": "raw",
                              "data_encoding": "raw"}
     info = {"type": "image", "num_channels": nch,
-            "data_type": "uint16" if kind == "uint16" else "uint8",
+            "data_type": "uint16" if (kind == "uint16"
+                                      or kind.startswith("mixed"))
+            else "uint8",
             "scales": [scale]}
     if case.get("dataset_type"):
         # pixel type wider than the dataset's: values are converted with the
@@ -288,6 +304,18 @@ def cases(tier):
         if tier == "thorough" or i % 6 == 4:
             out.append({"code": code, "size": [4, 3, 5], "chunk": [2, 2, 2],
                         "pixels": "rgb-grey", "storage": "flat-nogzip"})
+    # two directories with different pixel types (8-bit and 16-bit)
+    for code in codes:
+        i = codes.index(code)
+        if tier == "quick" and i % 12 not in (2, 9):
+            continue
+        out.append({"code": code, "size": [4, 3, 5], "chunk": [2, 2, 2],
+                    "pixels": "mixed-8-16" if i % 2 == 0 else "mixed-16-8",
+                    "storage": "flat-nogzip"})
+        if tier == "thorough":
+            out.append({"code": code, "size": [4, 3, 5], "chunk": [2, 2, 2],
+                        "pixels": "mixed-16-8" if i % 2 == 0
+                        else "mixed-8-16", "storage": "deep-gzip"})
     # 16-bit slices into an 8-bit dataset (values beyond 255 saturate)
     for code in codes:
         if tier == "quick" and codes.index(code) % 12 != 5:
